@@ -110,6 +110,39 @@ func (f *Fork) Exec(msg sdk.Msg) (res Result) {
 	return Result{Data: r.Data, Events: r.GetEvents()}
 }
 
+// ExecAtomic runs several messages the way one transaction does: all on one branch of the state, which is written back
+// only if every message succeeds; the first failure (or panic) discards everything the earlier messages did.
+func (f *Fork) ExecAtomic(msgs ...sdk.Msg) (res Result) {
+	cctx, write := f.Ctx.CacheContext()
+	cctx = cctx.WithGasMeter(sdk.NewInfiniteGasMeter())
+	defer quiet()()
+	defer func() {
+		if r := recover(); r != nil {
+			res = Result{Panic: r, Stack: string(debug.Stack())}
+		}
+	}()
+	var events sdk.Events
+	var data []byte
+	for _, msg := range msgs {
+		if err := msg.ValidateBasic(); err != nil {
+			return Result{Err: err}
+		}
+		handler := f.C.App.MsgServiceRouter().Handler(msg)
+		if handler == nil {
+			return Result{Err: fmt.Errorf("no route for %s", sdk.MsgTypeURL(msg))}
+		}
+		r, err := handler(cctx, msg)
+		if err != nil {
+			return Result{Err: err}
+		}
+		events = append(events, r.GetEvents()...)
+		data = r.Data
+		_ = events
+	}
+	write()
+	return Result{Data: data, Events: events}
+}
+
 // BeginBlockResult reports a panic of block processing.
 type BeginBlockResult struct {
 	Panic interface{}
@@ -248,6 +281,15 @@ func DumpPrefix(c *Chain, ctx sdk.Context, store string, prefix []byte) []KV {
 		out = append(out, KV{k, v})
 	}
 	return out
+}
+
+// WipeStore deletes every key of one module's store in the fork (used to model that module being rebuilt from an
+// exported genesis while the rest of the application state stays).
+func (f *Fork) WipeStore(store string) {
+	st := f.Ctx.KVStore(f.C.StoreKey(store))
+	for _, kv := range DumpPrefix(f.C, f.Ctx, store, nil) {
+		st.Delete(kv.K)
+	}
 }
 
 var devNull *os.File
